@@ -357,7 +357,7 @@ class DateTime(datetime.datetime, Date):
         tz = pendulum._safe_timezone(tz)
 
         dt = self
-        if not self.timezone:
+        if self.tzinfo is None:
             dt = dt.replace(fold=1)
 
         return tz.convert(dt)
